@@ -16,6 +16,11 @@ if '-j' in args:
 only = args
 man = json.load(open(f'{V}/MANIFEST.json'))
 pids = [c['property_id'] for c in man['checks']]
+# MATRIX_PIDS=C05,C06 restricts the checks that are run (quick regression of a rule edit confined to those properties); the
+# result then goes to MATRIX_OUT (default /tmp/matrix_partial_<kind>.json), never into the committed RESULTS.json
+PARTIAL = os.environ.get('MATRIX_PIDS')
+if PARTIAL:
+    pids = [p for p in pids if p in PARTIAL.split(',')]
 items = []
 if kind == 'seeds':
     for d in sorted(glob.glob(f'{V}/seeded/C*-*')):
@@ -27,7 +32,9 @@ else:
     for d in sorted(glob.glob(f'{V}/benign/C*-*')):
         items.append((os.path.basename(d), f'{d}/patch.diff', os.path.basename(d).split('-')[0]))
     out_path = f'{V}/benign/RESULTS.json'
-res = json.load(open(out_path)) if (only and os.path.exists(out_path)) else {}
+if PARTIAL:
+    out_path = os.environ.get('MATRIX_OUT', f'/tmp/matrix_partial_{kind}.json')
+res = json.load(open(out_path)) if (only and os.path.exists(out_path) and not PARTIAL) else {}
 if only:
     items = [it for it in items if any(o in it[0] for o in only)]
 q = queue.Queue()
